@@ -16,7 +16,9 @@ TARGETS = ["Props/C05.vo"]
 TRUSTED = [
     "Model/Sched.v is a hand-written Gallina model of scheduler.py, tied to the code by exact comparison of the "
     "returned cycle lists / cycle indices (<= 8 gates, random.shuffle replaced by recorded permutations fed to both "
-    "sides) and of Scheduler.commutation_rules on pairs of placed library gates",
+    "sides) and of Scheduler.commutation_rules on pairs of placed library gates; the model is HISTORY-FREE: short histories "
+    "(2-4 different circuits scheduled in a row by ONE Scheduler object, both methods, cycles/indices, repeat_num) are run "
+    "and every call is compared with the model and the oracle, so state kept on the Scheduler object must not leak",
     "CPython iterates a set of distinct ints < 8 in ascending order (exact tie only; theorems quantify over all orders)",
     "sched_sem is proved for an ABSTRACT gate action `act`: (H1) gates on disjoint qubits commute, (H2) gates declared "
     "commuting by the commutation predicate commute.  H1/H2 are PROVED (Proofs/SchedReal.v, Found/Shift.v: real_H1, real_H2, "
@@ -220,10 +222,166 @@ def check_real(corr, inp, res, what_prefix=""):
         corr.oracle_fail(inp, dict(result=res, detail=bad[1]), "a valid, unitary-preserving schedule", bad[0])
 
 
+# --------------------------------------------------------------------------------------------------
+# histories: ONE Scheduler object schedules several different circuits in a row
+# --------------------------------------------------------------------------------------------------
+def run_history(hist):
+    """hist = dict(mode="history", method, perm, steps=[ordinary inputs with that method/perm]).
+    The SAME Scheduler instance handles every step -> [(result | 'rejected: ...', perms of that step)]."""
+    import random as _random
+    import qutip_qip.compiler.scheduler as SM
+    from qutip_qip.compiler import Scheduler
+    from qutip_qip.circuit import QubitCircuit
+    sch = Scheduler(hist["method"], allow_permutation=hist["perm"])
+    out = []
+    old = SM.shuffle
+    try:
+        for inp in hist["steps"]:
+            rnd = _random.Random(inp.get("shuf_seed", 0))
+            perms = []
+
+            def fake_shuffle(lst, rnd=rnd, perms=perms):
+                p = list(range(len(lst)))
+                rnd.shuffle(p)
+                perms.append(p)
+                lst[:] = [lst[i] for i in p]
+
+            SM.shuffle = fake_shuffle
+            try:
+                if inp.get("as") == "circuit":
+                    N = max([q for s in inp["instrs"] for q in S.spec_qubits(s)] + [0]) + 1
+                    obj = QubitCircuit(N)
+                    for s in inp["instrs"]:
+                        obj.add_gate(S.mk_gate(s))
+                elif inp.get("as") == "gates":
+                    obj = [S.mk_gate(s) for s in inp["instrs"]]
+                else:
+                    obj = [S.mk_instruction(s) for s in inp["instrs"]]
+                kw = dict(random_shuffle=inp.get("random", False))
+                if inp.get("repeat", 0):
+                    kw["repeat_num"] = inp["repeat"]
+                if inp["mode"] == "cycles":
+                    res = sch.schedule(obj, gates_schedule=True, return_cycles_list=True, **kw)
+                    res = [[int(i) for i in c] for c in res]
+                else:
+                    res = sch.schedule(obj, gates_schedule=True, **kw)
+                    res = [int(i) for i in res]
+                out.append((res, perms))
+            except Exception as e:  # noqa
+                out.append(("rejected: " + type(e).__name__, perms))
+    finally:
+        SM.shuffle = old
+    return out
+
+
+def step_failure(inp, res):
+    """oracle on one step of a history -> (what, observed) or None"""
+    if isinstance(res, str):
+        if any(S.spec_qubits(s) for s in inp["instrs"]) and not (inp.get("repeat", 0) and inp["mode"] == "cycles"):
+            return ("scheduler raised on a valid circuit", res)
+        return None
+    cycles = res if inp["mode"] == "cycles" else cycles_from_indices(res)
+    bad = oracle_cycles(inp, cycles)
+    if bad:
+        return (bad[0], dict(result=res, detail=bad[1]))
+    return None
+
+
+def _distinct_1q(rng, n, N):
+    """single-qubit gates, gate i on qubit i mod N (equal positions never share a qubit when n <= N)"""
+    out = []
+    for i in range(n):
+        k = rng.choice(["SNOT", "X", "RZ", "RX", "Z"])
+        out.append(dict(name=k, targets=[i % N], controls=None, arg=rng.choice(S.ANGLES) if k in ("RZ", "RX") else None))
+    return out
+
+
+def _commuting_sharing(rng, n, N):
+    """gates the rule declares commuting that all share one qubit: CNOT c->t, RZ/Z on c, or CNOT c->t, RX/X on t"""
+    c = rng.randrange(N)
+    others = [q for q in range(N) if q != c]
+    out = []
+    if rng.random() < 0.5 or not others:
+        for _ in range(n):
+            k = rng.choice(["CNOT", "CNOT", "RZ", "Z"]) if others else rng.choice(["RZ", "Z"])
+            if k == "CNOT":
+                out.append(dict(name="CNOT", targets=[rng.choice(others)], controls=[c], arg=None))
+            else:
+                out.append(dict(name=k, targets=[c], controls=None, arg=rng.choice(S.ANGLES) if k == "RZ" else None))
+    else:
+        for _ in range(n):
+            k = rng.choice(["CNOT", "CNOT", "RX", "X"])
+            if k == "CNOT":
+                out.append(dict(name="CNOT", targets=[c], controls=[rng.choice(others)], arg=None))
+            else:
+                out.append(dict(name=k, targets=[c], controls=None, arg=rng.choice(S.ANGLES) if k == "RX" else None))
+    return out
+
+
+def gen_history(rng):
+    method = rng.choice(["ASAP", "ALAP"])
+    perm = rng.random() < 0.8
+    N = rng.choice([2, 3, 3, 4])
+    nsteps = rng.randint(2, 4)
+    same_len = rng.random() < 0.5
+    n0 = rng.randint(2, 5)
+    steps = []
+    for k in range(nsteps):
+        n = n0 if same_len else rng.randint(1, 6)
+        style = rng.choice(["distinct", "sharing", "sharing", "random", "random-small"])
+        if style == "distinct":
+            specs = _distinct_1q(rng, n, N)
+        elif style == "sharing":
+            specs = _commuting_sharing(rng, n, N)
+        elif style == "random":
+            specs = [S.rand_gate(rng, N) for _ in range(n)]
+        else:
+            specs = [S.rand_gate(rng, N, ["CNOT", "CNOT", "X", "RX", "Z", "RZ", "SNOT", "CZ", "SWAP"]) for _ in range(n)]
+        step = dict(instrs=specs, method=method, perm=perm, random=rng.random() < 0.3, shuf_seed=rng.randrange(10 ** 6),
+                    mode=rng.choice(["cycles", "indices"]), **{"as": rng.choice(["circuit", "gates"])})
+        if rng.random() < 0.15:
+            step["mode"] = "indices"
+            step["repeat"] = rng.randint(1, 3)
+        steps.append(step)
+    return dict(mode="history", method=method, perm=perm, steps=steps)
+
+
+def history_prepare(ctx, corpus_hist):
+    """run the histories on the real code -> flat list of (history, step index, step input, result, perms)"""
+    rng = ctx.rng
+    hists = list(corpus_hist) + [gen_history(rng) for _ in range(ctx.n(250, 1200))]
+    flat = []
+    for h in hists:
+        for k, (step, (res, perms)) in enumerate(zip(h["steps"], run_history(h))):
+            flat.append((h, k, step, res, perms))
+    return hists, flat
+
+
+def history_compare(corr, hists, flat, models):
+    """every call of every history is compared with the HISTORY-FREE model and with the oracle"""
+    for (h, k, step, res, perms), mod in zip(flat, models):
+        corr.tally("history-step")
+        corr.tally("history-step-%d" % k)
+        corr.count(json.dumps(dict(hist=h, step=k), sort_keys=True), nontrivial=S.nontrivial(step))
+        r = "rejected" if isinstance(res, str) else res
+        bad = step_failure(step, res)
+        if bad:
+            corr.oracle_fail(h, dict(step=k, detail=bad[1]), "a valid, unitary-preserving schedule for every call",
+                             "reused Scheduler object: " + bad[0])
+        elif r != mod:
+            corr.disagree(h, dict(step=k, result=res), mod,
+                          "history-free Sched model vs Scheduler.schedule on a REUSED Scheduler object (call %d)" % k)
+    corr.extra["histories"] = len(hists)
+
+
+def history_fails(h):
+    return any(step_failure(step, res) is not None for step, (res, _) in zip(h["steps"], run_history(h)))
+
+
 def correspond(ctx):
     corr = Corr(rule="at least two gates share a qubit; rule pairs always count")
     rng = ctx.rng
-    exact = [("corpus", i) for i in S.load_corpus("C05") if i.get("mode") != "rule"]
+    exact = [("corpus", i) for i in S.load_corpus("C05") if i.get("mode") not in ("rule", "history")]
     for _ in range(ctx.n(1200, 5000)):
         exact.append(("random<=8", gen_gate_input(rng, 8)))
     for _ in range(ctx.n(400, 1500)):
@@ -247,7 +405,11 @@ def correspond(ctx):
         exact.append(("degenerate", dict(instrs=[], method=m, perm=True, random=False, shuf_seed=0, mode="indices", repeat=2, **{"as": "gates"})))
 
     reals = [S.run_real(inp) for _, inp in exact]
-    models = S.run_model_many("c05", [(inp, perms) for (_, inp), (_, perms) in zip(exact, reals)])
+    hists, hflat = history_prepare(ctx, [i for i in S.load_corpus("C05") if i.get("mode") == "history"])
+    models = S.run_model_many("c05", [(inp, perms) for (_, inp), (_, perms) in zip(exact, reals)]
+                              + [(step, perms) for (_, _, step, _, perms) in hflat])
+    history_compare(corr, hists, hflat, models[len(exact):])
+    models = models[:len(exact)]
     for (kind, inp), (res, perms), mod in zip(exact, reals, models):
         corr.tally(kind)
         corr.tally("n=%d" % len(inp["instrs"]))
@@ -299,6 +461,8 @@ def replay(ctx, rec):
         a, b = inp["instrs"]
         Nq = max(S.spec_qubits(a) + S.spec_qubits(b)) + 1
         return real_rule(a, b) and not S.gates_commute(a, b, Nq)
+    if inp.get("mode") == "history":
+        return history_fails(inp)
     res, _ = S.run_real(inp)
     if isinstance(res, str):
         return bool(any(S.spec_qubits(s) for s in inp["instrs"]))
@@ -316,10 +480,30 @@ def search(ctx, broken):
             if real_rule(a, b) and not S.gates_commute(a, b, Nq):
                 out.append(dict(input=inp, observed="commutation_rules returns True", expected="gates do not commute",
                                 what="commutation_rules declares two non-commuting gates commuting"))
+        elif inp.get("mode") == "history":
+            for k, (step, (res, _)) in enumerate(zip(inp["steps"], run_history(inp))):
+                bad = step_failure(step, res)
+                if bad:
+                    out.append(dict(input=inp, observed=dict(step=k, detail=bad[1]),
+                                    expected="a valid, unitary-preserving schedule for every call",
+                                    what="reused Scheduler object: " + bad[0]))
+                    break
         else:
             res, _ = S.run_real(inp)
             check_real(c, inp, res)
     rng = ctx.rng
+    for _ in range(400):
+        if out:
+            break
+        h = gen_history(rng)
+        if h["perm"] and history_fails(h):
+            for k, (step, (res, _)) in enumerate(zip(h["steps"], run_history(h))):
+                bad = step_failure(step, res)
+                if bad:
+                    out.append(dict(input=h, observed=dict(step=k, detail=bad[1]),
+                                    expected="a valid, unitary-preserving schedule for every call",
+                                    what="reused Scheduler object: " + bad[0]))
+                    break
     for _ in range(3000):
         if len(out) + len(c.oracle_failures) >= 3:
             break
